@@ -81,6 +81,17 @@ def main(argv):
     except Inconclusive as e:
         crashed = str(e)
         rep.inconclusive.append("aborted: " + crashed[:2000])
+        # a tree whose private signatures / struct shapes no longer fit the kernel replay wrappers aborts the kernel-level judges of the
+        # astronomical properties: judge the property's numeric criteria through the public API instead (sampling, seam-directed inputs)
+        want = {"C01": {"dhuhr"}, "C13": {"dhuhr"}, "C20": {"dhuhr"}, "C05": {"dhuhr", "riseset"}, "C02": {"dhuhr", "riseset"},
+                "C03": {"dhuhr", "twilight"}, "C04": {"dhuhr"}, "C06": {"dhuhr"}}.get(pid)
+        if want and "kernel replay crate does not build" in crashed:
+            try:
+                from .props import ephsweep, policyprop
+                ephsweep.public_sweep(rep, want, with_grid=True, tag="public-API sweep after the kernel-level judges were aborted")
+                policyprop.purity_native(rep)
+            except Exception:
+                rep.inconclusive.append("public-API fallback failed: " + traceback.format_exc()[-800:])
     except Exception:
         crashed = traceback.format_exc()
         rep.inconclusive.append("internal error: " + crashed[-2000:])
